@@ -341,8 +341,8 @@ type Models struct {
 	// per-block change notes for monitors
 	ParamChanged map[string]int // module -> block index of last successful update
 	LastUpdate   map[string]sdk.Msg
-	RejectedUpd  []sdk.Msg // UpdateParams messages that were executed by gov and failed / proposal failed
-	Settles      []SettleRec // releases/refunds the model computed for the last applied transaction
+	RejectedUpd  []sdk.Msg       // UpdateParams messages that were executed by gov and failed / proposal failed
+	Settles      []SettleRec     // releases/refunds the model computed for the last applied transaction
 	Grants       map[string]bool // authz generic grants: granter|grantee|msg type url
 }
 
